@@ -93,6 +93,29 @@ CHECKS.update({
    technique='Coq proof over AST-generated selection logic; vm_compute correspondence with scripted oracles',
    ref='DESIGN.md section 7, C05'),
 })
+CHECKS.update({
+ 'C13': dict(
+   text='Machine-checked proof (Coq) about definitions generated from _transform_to_normal / probability_density / cumulative_distribution / log_probability_density and proved equal to the executable Scores model: '
+        'delegation to the MVN oracle on the normal scores with the fitted correlation, invariance under every column permutation and container (DataFrame, 2-d array, Series, 1-d array), row-wise evaluation, '
+        'monotone scores, log pdf = log(pdf), what happens for missing columns. Tie: fail-closed AST shape translation + vm_compute correspondence on opaque tokens (which cdf value of which column lands where, which scipy function with which arguments).',
+   note=TB + 'scipy.stats.multivariate_normal pdf/cdf and the univariate cdfs are oracles; monotonicity of the copula CDF reduces to that of the MVN CDF (oracle hypothesis).',
+   technique='Coq proof over AST-generated container-normalisation model; token-level vm_compute correspondence',
+   ref='DESIGN.md section 7, C13'),
+ 'C01': dict(
+   text='Machine-checked proof (Coq) of the deterministic core: the generated unconditional sampler returns n rows with the training header in order, column j = ppf_j(Phi(Z_j)) with the fit-time pairing, no missing cell, '
+        'constant columns reproduced exactly, Galois step ppf(q) <= x <-> q <= cdf(x) for the marginal law (Uniform and constant instances proved end to end), and EXACT equality of Kendall concordance counts / tau between output columns and the normal draw for '
+        'strictly increasing marginals. PARTIAL: recovery of generating marginals/correlation "within sampling error" and tau = (2/pi) asin(rho) are statistical/cited and only exercised by the witness search at false-alarm level 1e-9.',
+   note=TB + 'np.random.multivariate_normal is an oracle (patched in the correspondence); scipy marginal laws are oracle hypotheses.',
+   technique='Coq proof (concordance invariance, schema) over AST-generated sampler; vm_compute correspondence with patched normal draws',
+   ref='DESIGN.md section 7, C01'),
+ 'C20': dict(
+   text='Machine-checked proof (Coq) that a may-alias write analysis over an effect language is sound (and exact on call-free programs); effect programs for ~90 public entry points are EXTRACTED from the AST every run and '
+        'vm_compute proves an all-false verdict for each, hence arguments are bit-for-bit unchanged for every view/copy oracle; plot figures contain every given row exactly once under the right label (Permutation proof over a model of px.scatter). '
+        'Tie: extraction + dynamic correspondence (every entry point called twice with deep-snapshotted arguments of every container kind; observed mutation verdict = model verdict; figures vs Model.Plot).',
+   note=TB + 'the extractor and its numpy/pandas alias table are trusted (validated by the verdict correspondence); plotly modelled as one trace per colour value; callbacks assumed not to write their arguments.',
+   technique='Coq-proved sound effect analysis on AST-extracted programs; snapshot-based dynamic correspondence',
+   ref='DESIGN.md section 7, C20'),
+})
 NOT_YET = {}
 def main():
     props = [json.loads(l) for l in open(os.path.join(V, 'properties.jsonl'))]
